@@ -91,6 +91,9 @@ def gen_case(rng):
                                  short=rng.random() < 0.35,      # the flags stream stops one time chunk early
                                  missing=[g for g in grid if rng.random() < 0.3])
                             if (via_source and rng.random() < 0.5) else None))
+    if src_opts and src_opts['l1'] and rng.random() < 0.15:
+        # the attached flags stream was never copied: every chunk is absent because its whole prefix directory is
+        src_opts['l1'].update(missing=grid, dir_absent=True, short=False)
     dict_absent = sorted(rng.sample(ARRAYS, rng.randint(1, 2))) if rng.random() < 0.3 else None
     return dict(kind='vfw', T=T, F=F, B=B, dumps=dumps, chunks=chunks, missing=missing, pre=pre,
                 via_source=via_source, src_opts=src_opts, dict_absent=dict_absent, seed=rng.randrange(2 ** 31))
@@ -275,6 +278,8 @@ def load_via_source(case, store, chunk_info, prefix, tmp):
                 sl = tuple(slice(int(starts[d][i]), int(starts[d][i + 1])) for d, i in enumerate(g))
                 cname, _ = store.chunk_metadata(fname, sl)
                 os.remove(os.path.join(tmp, cname + '.npy'))
+            if l1.get('dir_absent'):
+                shutil.rmtree(os.path.join(tmp, fprefix))
             info = {'chunks': darr.chunks, 'dtype': np.lib.format.dtype_to_descr(darr.dtype), 'shape': darr.shape}
             fcs = telstate.view(telstate.join(cbid, fstream))
             if l1['legacy']:
